@@ -5,6 +5,8 @@ import re
 from ..fn import World
 from ..index import AnalysisError, dotted, REPO
 from ..astutil import text, short, endswith, calls_in, walk_no_nested
+from ._h_F import (Res, res_of, atoms, canon, is_none, isinstance_atom, call_arg, absent,
+                   iterations)
 
 EXPLANATION = (
   "Decides (R1) that every object code encode_object can emit is accepted by decode_object and is "
@@ -43,25 +45,36 @@ def check(run, repo, tier):
   r4_exception_roundtrip(run, w)
 
 
-def _codes_emitted(fn):
+def _codes_emitted(r):
+  """{code: return stmt} for every list result of encode_object headed by a literal code."""
   out = {}
-  for n in ast.walk(fn.node):
-    if isinstance(n, ast.Return) and n.value is not None:
-      v = n.value
-      if isinstance(v, ast.BinOp) and isinstance(v.op, ast.Add):
-        v = v.left
-      if isinstance(v, ast.List) and v.elts and isinstance(v.elts[0], ast.Constant) and \
-          isinstance(v.elts[0].value, str):
-        out[v.elts[0].value] = n
+  for (n, v) in r.returns():
+    for (facts, leaf) in Res.cases(v):
+      x = leaf
+      while isinstance(x, ast.BinOp) and isinstance(x.op, ast.Add):
+        x = x.left
+      if isinstance(x, ast.List) and x.elts and isinstance(x.elts[0], ast.Constant) and \
+          isinstance(x.elts[0].value, str):
+        out[x.elts[0].value] = n.stmt
   return out
 
 
-def _codes_accepted(fn):
+def _codes_accepted(r, p):
+  """Literal codes the first element of the encoded value (`<param>[0]`, through any local) is
+  compared with."""
   out = set()
-  for n in ast.walk(fn.node):
-    if isinstance(n, ast.Compare) and isinstance(n.left, ast.Name) and n.left.id == "code" and \
-        isinstance(n.ops[0], ast.Eq) and isinstance(n.comparators[0], ast.Constant):
-      out.add(n.comparators[0].value)
+  head = p + "[0]"
+  for n in r.cfg.nodes:
+    for e in n.exprs:
+      for x in walk_no_nested(e):
+        if isinstance(x, ast.Compare) and len(x.ops) == 1 and \
+            isinstance(x.ops[0], (ast.Eq, ast.NotEq, ast.In, ast.NotIn)):
+          a, b = x.left, x.comparators[0]
+          for (l, c) in ((a, b), (b, a)):
+            consts = c.elts if isinstance(c, (ast.Tuple, ast.List, ast.Set)) else [c]
+            if consts and all(isinstance(k, ast.Constant) and isinstance(k.value, str)
+                              for k in consts) and r.norm(l, n.id) == head:
+              out |= {k.value for k in consts}
   return out
 
 
@@ -75,13 +88,26 @@ def _ts_enum(path, name):
   return dict(re.findall(r"(\w+)\s*=\s*[\"']([^\"']*)[\"']", body))
 
 
+def _catch_all(h):
+  if h.type is None:
+    return True
+  names = h.type.elts if isinstance(h.type, ast.Tuple) else [h.type]
+  return any(text(x) in ("Exception", "BaseException") for x in names)
+
+
+def _fenced(fn):
+  """Top-level try statements of fn with a catch-all handler."""
+  return [s for s in fn.node.body if isinstance(s, ast.Try) and any(_catch_all(h)
+                                                                    for h in s.handlers)]
+
+
 def r1_alphabet(run, w):
   R1 = run.rule("C24-R1", "object codes: emitted by encode_object <= accepted by decode_object <= "
                 "GristObjCode (app/plugin/GristData.ts)", floor=10)
   enc = w.fn("objtypes.encode_object")
   dec = w.fn("objtypes.decode_object")
-  emitted = _codes_emitted(enc)
-  accepted = _codes_accepted(dec)
+  emitted = _codes_emitted(res_of(w, enc))
+  accepted = _codes_accepted(res_of(w, dec), dec.fi.params()[0])
   ts = _ts_enum(os.path.join(w.repo.root, "app", "plugin", "GristData.ts"), "GristObjCode")
   tsvals = set(ts.values())
   if len(emitted) < 8 or len(accepted) < 8 or len(tsvals) < 8:
@@ -94,62 +120,61 @@ def r1_alphabet(run, w):
   for code in sorted(accepted):
     run.ob(R1, dec.qualname, "code %r" % code, "accepted code is a GristObjCode member",
            code in tsvals, fi=dec.fi, nontrivial=False)
-  # unknown codes yield a value (RaisedException), never an exception
+  # unknown codes yield a value (RaisedException), never an exception: the whole body is one try
+  # whose handlers all catch Exception-or-wider and end in a return
   trys = [s for s in dec.node.body if isinstance(s, ast.Try)]
-  ok = len(trys) == 1 and any(h.type is not None and text(h.type) == "Exception" or h.type is None
-                              for h in trys[0].handlers) and \
-      all(any(isinstance(x, ast.Return) for x in h.body) for h in trys[0].handlers)
+  rest = [s for s in dec.node.body if not isinstance(s, ast.Try) and
+          not (isinstance(s, ast.Expr) and isinstance(s.value, ast.Constant))]
+  r = res_of(w, dec)
+  ok = len(trys) == 1 and not rest and any(_catch_all(h) for h in trys[0].handlers)
+  if ok:
+    for h in trys[0].handlers:
+      hn = [n for n in r.cfg.nodes if n.kind == "handler" and n.stmt is h]
+      rets = {n.id for n in r.cfg.nodes if n.kind == "return"}
+      # every path out of the handler goes through a return
+      ok = ok and bool(hn) and all(
+        not (r.cfg.reach_after({x.id}, removed=rets) & {r.cfg.exit.id, r.cfg.raise_exit.id})
+        for x in hn)
   run.ob(R1, dec.qualname, "except Exception: return RaisedException(e)",
          "decoding never raises", ok, fi=dec.fi)
 
 
-def _exact_guard_names(fn):
-  """Names that are exact primitives inside the `if` whose test is `type(x) in (str, float, ...)
-  or x is None`: returns {id(if-stmt): name}."""
-  out = {}
-  for n in ast.walk(fn.node):
-    if isinstance(n, ast.If):
-      parts = n.test.values if isinstance(n.test, ast.BoolOp) and isinstance(n.test.op, ast.Or) \
-          else [n.test]
-      names = set()
-      ok = True
-      for p in parts:
-        if isinstance(p, ast.Compare) and isinstance(p.ops[0], ast.In) and \
-            isinstance(p.left, ast.Call) and dotted(p.left.func) == "type" and \
-            isinstance(p.comparators[0], (ast.Tuple, ast.List)) and \
-            all(dotted(e) in ("str", "float", "bool", "int", "bytes", "list", "tuple") for e in
-                p.comparators[0].elts):
-          names.add(text(p.left.args[0]))
-        elif isinstance(p, ast.Compare) and isinstance(p.ops[0], ast.Is) and \
-            isinstance(p.comparators[0], ast.Constant) and p.comparators[0].value is None:
-          names.add(text(p.left))
-        else:
-          ok = False
-      if ok and len(names) == 1:
-        out[id(n)] = names.pop()
-  return out
+PRIM_EXACT = ("str", "float", "bool", "int", "bytes", "list", "tuple")
+
+
+def _exact_test(a, subject, res=None, node=None, allowed=PRIM_EXACT):
+  """Is canonical atom `a` (known true) a proof that `subject` (text) is an exact primitive:
+  `type(s) in (str, float, ...)`, `type(s) is str`, `s is None`, or a disjunction of such?"""
+  def same(e):
+    return text(e) == subject or (res is not None and res.norm(e, node.id) == subject)
+  if isinstance(a, ast.BoolOp) and isinstance(a.op, ast.Or):
+    return all(_exact_test(canon(v)[0], subject, res, node, allowed) and canon(v)[1]
+               for v in a.values)
+  if isinstance(a, ast.Compare) and len(a.ops) == 1:
+    l, op, rr = a.left, a.ops[0], a.comparators[0]
+    if isinstance(op, ast.Is) and isinstance(rr, ast.Constant) and rr.value is None and same(l):
+      return True
+    if isinstance(op, (ast.In, ast.Is, ast.Eq)) and isinstance(l, ast.Call) and \
+        dotted(l.func) == "type" and len(l.args) == 1 and same(l.args[0]):
+      elts = rr.elts if isinstance(rr, (ast.Tuple, ast.List, ast.Set)) else [rr]
+      return bool(elts) and all(dotted(x) in allowed for x in elts)
+  return False
 
 
 def r2_marshal_safety(run, w):
   R2 = run.rule("C24-R2", "every leaf of every value returned by encode_object is an exact "
                 "primitive, a recursive result or a named trusted field", floor=20)
   fn = w.fn("objtypes.encode_object")
-  exact_ifs = _exact_guard_names(fn)
+  r = res_of(w, fn)
+  vp = fn.fi.params()[0]
+  trusted = {k.replace("value", vp) if vp != "value" else k for k in TRUSTED}
 
-  def exact_in_scope(ret):
-    # is `ret` inside the body of an exact-type guard?  returns the guarded name or None
-    for n in ast.walk(fn.node):
-      if isinstance(n, ast.If) and id(n) in exact_ifs and any(x is ret for b in n.body
-                                                              for x in ast.walk(b)):
-        return exact_ifs[id(n)]
-    return None
-
-  def classify(e, ret):
-    """'' when e is provably marshal-safe, else a reason."""
+  def classify(e, n, facts, bound=()):
+    """'' when e (evaluated at node n under facts) is provably marshal-safe, else a reason."""
     if isinstance(e, ast.Constant):
       return ""
     t = text(e)
-    if t in TRUSTED:
+    if t in trusted:
       return ""
     if isinstance(e, ast.Call):
       d = dotted(e.func)
@@ -161,60 +186,89 @@ def r2_marshal_safety(run, w):
         return ""       # bytes.decode -> exact str
       return "result of %s() is not known to be an exact primitive" % (d or short(e.func))
     if isinstance(e, ast.Name):
-      if exact_in_scope(ret) == e.id:
-        return ""
+      if e.id not in bound:
+        if r.known(n.id, lambda a, nd: _exact_test(a, e.id, r, nd), True, facts):
+          return ""
+        if e.id != vp:
+          els = r.elements(e, n.id)
+          if els is not None:
+            for el in els:
+              bnd = tuple(x for (tg, it) in el.loops for x in _names(tg))
+              at = el.node or n
+              rr = (classify(el.key, at, (), bnd) if el.key is not None else "") or \
+                  classify(el.elt, at, (), bnd)
+              if rr:
+                return rr
+            return ""
       return "%s is known only through isinstance(); a subclass instance is not marshallable" % e.id
     if isinstance(e, (ast.List, ast.Tuple)):
       for x in e.elts:
-        r = classify(x, ret)
-        if r:
-          return r
+        rr = classify(x, n, facts, bound)
+        if rr:
+          return rr
       return ""
-    if isinstance(e, ast.ListComp):
-      return classify(e.elt, ret)
-    if isinstance(e, ast.DictComp):
-      return classify(e.key, ret) or classify(e.value, ret)
+    if isinstance(e, (ast.ListComp, ast.DictComp)):
+      bnd = tuple(bound) + tuple(x for g in e.generators for x in _names(g.target))
+      if isinstance(e, ast.ListComp):
+        return classify(e.elt, n, facts, bnd)
+      return classify(e.key, n, facts, bnd) or classify(e.value, n, facts, bnd)
     if isinstance(e, ast.Dict):
       for k, v in zip(e.keys, e.values):
-        r = (classify(k, ret) if k is not None else "** expansion") or classify(v, ret)
-        if r:
-          return r
+        rr = (classify(k, n, facts, bound) if k is not None else "** expansion") or \
+            classify(v, n, facts, bound)
+        if rr:
+          return rr
       return ""
     if isinstance(e, ast.BinOp) and isinstance(e.op, ast.Add):
-      return classify(e.left, ret) or classify(e.right, ret)
+      return classify(e.left, n, facts, bound) or classify(e.right, n, facts, bound)
     if isinstance(e, ast.IfExp):
-      return classify(e.body, ret) or classify(e.orelse, ret)
+      return classify(e.body, n, tuple(facts) + tuple(atoms(e.test, True)), bound) or \
+          classify(e.orelse, n, tuple(facts) + tuple(atoms(e.test, False)), bound)
     return "expression %s is not provably an exact primitive" % short(e)
 
-  rets = [n for n in ast.walk(fn.node) if isinstance(n, ast.Return) and n.value is not None]
+  rets = r.returns()
   if len(rets) < 15:
     raise AnalysisError("encode_object: fewer than 15 returns found")
-  for r in rets:
-    reason = classify(r.value, r)
-    run.ob(R2, fn.qualname, "return " + short(r.value, 80), "returned value is built only from "
+  for (n, v) in rets:
+    reason = classify(v, n, ())
+    run.ob(R2, fn.qualname, "return " + short(v, 80), "returned value is built only from "
            "exact primitives, recursive results and trusted fields", not reason,
-           witness=reason or None, fi=fn.fi, node=r)
+           witness=reason or None, fi=fn.fi, node=n.stmt)
   # the whole body is fenced: anything that raises becomes ['U', safe_repr(value)]
-  trys = [s for s in fn.node.body if isinstance(s, ast.Try)]
-  ok = len(trys) == 1 and any(h.type is None or text(h.type) in ("Exception", "BaseException")
-                              for h in trys[0].handlers)
-  last = fn.node.body[-1]
-  ok = ok and isinstance(last, ast.Return) and isinstance(last.value, ast.List) and \
-      text(last.value.elts[0]) == "'U'"
+  trys = _fenced(fn)
+  ok = len(trys) == 1 and not r.falls_off_end()
+  if ok:
+    # whatever runs after a handler caught something ends in a return of ['U', ...]
+    hs = [n.id for n in r.cfg.nodes if n.kind == "handler"]
+    after = r.cfg.reach(set(hs))
+    tail = [(n, v) for (n, v) in rets if n.id in after]
+    ok = bool(hs) and bool(tail) and all(
+      isinstance(v, ast.List) and v.elts and text(v.elts[0]) == "'U'" for (n, v) in tail) and \
+      not (r.cfg.raise_exit.id in r.cfg.reach(set(hs)))
+    # nothing but the fenced block and that final return runs at the top level
+    outside = [s for s in fn.node.body if s not in trys and
+               not (isinstance(s, ast.Expr) and isinstance(s.value, ast.Constant))]
+    ok = ok and all(isinstance(s, (ast.Return, ast.Assign)) for s in outside) and \
+        all(any(x.id in after for x in r.nodes_of(s)) for s in outside)
   run.ob(R2, fn.qualname, "try: ... except Exception: pass; return ['U', safe_repr(value)]",
          "encoding is total: a failure yields an unmarshallable-value marker, not an exception",
          ok, fi=fn.fi)
   # the dict branch rejects non-string keys before building the object
-  dict_ret = [r for r in rets if isinstance(r.value, ast.List) and r.value.elts and
-              text(r.value.elts[0]) == "'O'"]
-  ok = False
-  for r in dict_ret:
-    for n in ast.walk(fn.node):
-      if isinstance(n, ast.If) and any(x is r for b in n.body for x in ast.walk(b)):
-        for s in n.body:
-          if isinstance(s, ast.If) and any(isinstance(x, ast.Raise) for x in s.body) and \
-              "isinstance(key, str)" in text(s.test):
-            ok = True
+  def all_keys_str(a, node):
+    if not (isinstance(a, ast.Call) and dotted(a.func) == "all" and len(a.args) == 1 and
+            isinstance(a.args[0], (ast.GeneratorExp, ast.ListComp))):
+      return False
+    g = a.args[0]
+    if len(g.generators) != 1 or g.generators[0].ifs:
+      return False
+    it = r.norm(g.generators[0].iter, node.id)
+    e = g.elt
+    return it in (vp, vp + ".keys()") and isinstance(e, ast.Call) and \
+        dotted(e.func) == "isinstance" and len(e.args) == 2 and \
+        text(e.args[0]) == text(g.generators[0].target) and text(e.args[1]) == "str"
+  dict_ret = [(n, v) for (n, v) in rets if isinstance(v, ast.List) and v.elts and
+              text(v.elts[0]) == "'O'"]
+  ok = bool(dict_ret) and all(r.known(n.id, all_keys_str, True) for (n, v) in dict_ret)
   run.ob(R2, fn.qualname, "if not all(isinstance(key, str) ...): raise UnmarshallableError",
          "dicts with non-string keys are not emitted as objects", ok, fi=fn.fi)
   # RaisedException fields: every assignment to _name/_message/details is an exact str or None
@@ -223,30 +277,31 @@ def r2_marshal_safety(run, w):
   for mname, m in sorted(cls.methods.items()):
     if mname in ("decode_args", "no_traceback"):
       continue   # copies of already-encoded fields / decoded (marshalled) input
-    for n in ast.walk(m.node):
-      if isinstance(n, (ast.Assign, ast.AugAssign)):
-        tg = n.targets[0] if isinstance(n, ast.Assign) else n.target
+    mr = res_of(w, w.fn_of(m))
+    for n in mr.cfg.nodes:
+      st = n.stmt
+      if n.kind == "stmt" and isinstance(st, (ast.Assign, ast.AugAssign)):
+        tg = st.targets[0] if isinstance(st, ast.Assign) else st.target
         if isinstance(tg, ast.Attribute) and tg.attr in fields and text(tg.value) == "self":
-          v = n.value
-          ok = _exact_str(v)
-          run.ob(R2, m.qualname, short(n, 80), "exception field sent to Node is an exact str "
-                 "or None", ok, fi=m, node=n)
+          ok = _exact_str(mr, n, st.value)
+          run.ob(R2, m.qualname,
+                 ("self.%s %s %s" % (tg.attr, "=" if isinstance(st, ast.Assign) else "+=",
+                                     mr.norm(st.value, n.id)))[:80],
+                 "exception field sent to Node is an exact str or None", ok, fi=m, node=st)
   # RecordSet._get_encodable_row_ids returns an exact list/tuple: the stored row ids only under an
   # exact-type test, otherwise rebuilt with list()/tuple()
   ge = w.fn("records.RecordSet._get_encodable_row_ids")
-  exact = _exact_guard_names(ge)
-  for r in [n for n in ast.walk(ge.node) if isinstance(n, ast.Return) and n.value is not None]:
-    v = r.value
-    ok = isinstance(v, ast.Call) and dotted(v.func) in ("list", "tuple")
-    if not ok:
-      for n in ast.walk(ge.node):
-        if isinstance(n, ast.If) and id(n) in exact and exact[id(n)] == text(v) and \
-            any(x is r for b in n.body for x in ast.walk(b)):
-          tst = n.test
-          ok = isinstance(tst, ast.Compare) and all(
-            dotted(e) in ("list", "tuple") for e in tst.comparators[0].elts)
-    run.ob(R2, ge.qualname, "return " + short(v), "row ids leave as an exact list/tuple (a list "
-           "subclass such as RecordList is not marshallable)", ok, fi=ge.fi, node=r)
+  gr = res_of(w, ge)
+  for (n, v) in gr.returns():
+    for (facts, leaf) in Res.cases(v):
+      ok = isinstance(leaf, ast.Call) and dotted(leaf.func) in ("list", "tuple")
+      if not ok:
+        sub = text(leaf)
+        ok = gr.known(n.id, lambda a, nd: _exact_test(a, sub, gr, nd, ("list", "tuple")) and
+                      not (isinstance(a, ast.Compare) and isinstance(a.ops[0], ast.Is) and
+                           isinstance(a.comparators[0], ast.Constant)), True, facts)
+      run.ob(R2, ge.qualname, "return " + short(leaf), "row ids leave as an exact list/tuple (a "
+             "list subclass such as RecordList is not marshallable)", ok, fi=ge.fi, node=n.stmt)
   ea = w.fn("objtypes.RaisedException.encode_args")
   ok = any(isinstance(n, ast.Dict) and [text(k) for k in n.keys] == ["'u'"] and
            isinstance(n.values[0], ast.Call) and dotted(n.values[0].func) == "encode_object"
@@ -255,34 +310,64 @@ def r2_marshal_safety(run, w):
          "exception is itself encoded", ok, fi=ea.fi)
 
 
+def _names(target):
+  return [x.id for x in ast.walk(target) if isinstance(x, ast.Name)]
+
+
 def r4_exception_roundtrip(run, w):
   R4 = run.rule("C24-R4", "RaisedException args: the decoder restores the remembered user input "
                 "by key presence (None is a value), mirroring the encoder", floor=2)
   ea = w.fn("objtypes.RaisedException.encode_args")
-  # encoder: {"u": ...} exactly when has_user_input()
-  ok = False
-  for n in ast.walk(ea.node):
-    if isinstance(n, ast.If) and text(n.test) == "self.has_user_input()":
-      ok = any(isinstance(x, ast.Dict) and [text(k) for k in x.keys] == ["'u'"]
-               for b in n.body for x in ast.walk(b)) and \
-          any(isinstance(x, ast.Assign) and isinstance(x.value, ast.Constant) and
-              x.value.value is None for b in n.orelse for x in ast.walk(b))
+  r = res_of(w, ea)
+  # encoder: the slot is {"u": ...} exactly when has_user_input(), None otherwise
+  def has_input(a, node):
+    return isinstance(a, ast.Call) and not a.args and r.norm(a.func, node.id) == \
+        "self.has_user_input"
+  def u_dict(e):
+    return isinstance(e, ast.Dict) and [text(k) for k in e.keys] == ["'u'"]
+  slots = []
+  for (n, v) in r.returns(expand=False):
+    els = r.elements(v, n.id)
+    for el in els or []:
+      at = el.node or n
+      x = r.expand(el.elt, at.id)
+      if any(u_dict(y) for y in ast.walk(x)):
+        slots.append((at, x))
+  ok = bool(slots)
+  for (at, x) in slots:
+    cs = Res.cases(x)
+    ok = ok and any(u_dict(leaf) for (f, leaf) in cs) and any(is_none(leaf) for (f, leaf) in cs)
+    for (facts, leaf) in cs:
+      if u_dict(leaf):
+        ok = ok and r.known(at.id, has_input, True, facts)
+      elif is_none(leaf):
+        ok = ok and r.known(at.id, has_input, False, facts)
+      else:
+        ok = False
+  if not slots:
+    ok = absent(w, ea, "the {'u': ...} slot of the encoded argument list")
   run.ob(R4, ea.qualname, "user_input = {'u': encode_object(...)} if self.has_user_input() else None",
          "the 'u' key is present exactly when an input was remembered", ok, fi=ea.fi)
   hu = w.fn("objtypes.RaisedException.has_user_input")
-  rets = [n for n in ast.walk(hu.node) if isinstance(n, ast.Return)]
-  ok = len(rets) == 1 and text(rets[0].value).replace("RaisedException.", "self.") in \
-      ("self.user_input is not self.NO_INPUT",)
+  e = res_of(w, hu).result_expr()
+  ok = False
+  if e is not None:
+    a, pol = canon(e)
+    ok = (not pol) and isinstance(a, ast.Compare) and isinstance(a.ops[0], ast.Is) and \
+        {text(a.left).replace("RaisedException.", "self."),
+         text(a.comparators[0]).replace("RaisedException.", "self.")} == \
+        {"self.user_input", "self.NO_INPUT"}
   run.ob(R4, hu.qualname, "user_input is not NO_INPUT", "absence of input is the NO_INPUT "
          "sentinel, not None", ok, fi=hu.fi)
   da = w.fn("objtypes.RaisedException.decode_args")
+  dr = res_of(w, da)
   cfg = da.cfg
   sets = [n for n in cfg.nodes if n.kind == "stmt" and isinstance(n.stmt, ast.Assign) and
           text(n.stmt.targets[0]).endswith(".user_input")]
   final = [n for n in sets if not (cfg.reach_after({n.id}) & {m.id for m in sets})]
   ok = len(final) == 1 and cfg.dominated_by(cfg.exit.id, {final[0].id})
   if ok:
-    v = final[0].stmt.value
+    v = dr.expand(final[0].stmt.value, final[0].id)
     gets = [c for c in calls_in(v) if isinstance(c.func, ast.Attribute) and c.func.attr == "get"
             and c.args and text(c.args[0]) in ("'u'", '"u"')]
     ok = isinstance(v, ast.Call) and dotted(v.func) == "decode_object" and len(gets) == 1 and \
@@ -292,9 +377,12 @@ def r4_exception_roundtrip(run, w):
          "no input", ok, fi=da.fi)
 
 
-def _exact_str(v):
+def _exact_str(r, n, v, depth=0):
+  """Is v (evaluated at node n of the function of r) an exact str or None?"""
   if isinstance(v, ast.Constant):
     return v.value is None or isinstance(v.value, str)
+  if isinstance(v, ast.JoinedStr):
+    return True
   if isinstance(v, ast.Call):
     d = dotted(v.func)
     if d in ("str", "repr", "traceback.format_exc", "friendly_errors.friendly_message"):
@@ -303,10 +391,28 @@ def _exact_str(v):
       return True
     return False
   if isinstance(v, ast.BinOp) and isinstance(v.op, ast.Add):
-    return _exact_str(v.left) and (_exact_str(v.right) or isinstance(v.right, ast.Name))
+    return _exact_str(r, n, v.left, depth) and _exact_str(r, n, v.right, depth)
+  if isinstance(v, ast.IfExp):
+    return _exact_str(r, n, v.body, depth) and _exact_str(r, n, v.orelse, depth)
+  if isinstance(v, ast.Name) and depth < 6:
+    # a local: every definition that reaches this point is itself an exact str
+    defs, entry = r.reaching(n.id, v.id)
+    if entry or not defs:
+      return False
+    for d in defs:
+      dn = r.cfg.nodes[d]
+      pv = r._plain_value(dn, v.id)
+      if pv is None or not _exact_str(r, dn, pv, depth + 1):
+        return False
+    return True
   if isinstance(v, ast.Attribute):
-    # type(error).__name__ ; error.typename / error.value of InvalidTypedValue (built from str())
-    return text(v) in ("type(error).__name__", "error.typename", "error.value")
+    # type(<anything>).__name__ : class names are exact str
+    if v.attr == "__name__" and isinstance(v.value, ast.Call) and dotted(v.value.func) == "type":
+      return True
+    # .typename / .value of an InvalidTypedValue (built from str() in its constructor)
+    if v.attr in ("typename", "value"):
+      sub = {text(v.value), r.norm(v.value, n.id)}
+      return r.known(n.id, isinstance_atom(r, sub, {"InvalidTypedValue"}), True)
   return False
 
 
@@ -314,46 +420,56 @@ def r3_reply_paths(run, w):
   R3 = run.rule("C24-R3", "actions in replies pass through get_action_repr; action values are "
                 "encoded and decoded through the same recursive walker", floor=8)
   ga = w.fn("actions.get_action_repr")
-  ok = any(dotted(c.func) == "encode_objects" for c in calls_in(ga.node))
+  ok = any(endswith(ga.name(c), "encode_objects") for c in calls_in(ga.node))
   run.ob(R3, ga.qualname, "list(encode_objects(action_obj))", "get_action_repr encodes every "
          "cell value", ok, fi=ga.fi)
   eo, do = w.fn("actions.encode_objects"), w.fn("actions.decode_objects")
-  ok = any(dotted(c.func) == "convert_recursive_in_action" and
-           text(c.args[0]) == "objtypes.encode_object" for c in calls_in(eo.node)) and \
-      any(dotted(c.func) == "convert_recursive_in_action" and text(c.args[0]) == do.fi.params()[1]
-          for c in calls_in(do.node)) and \
+  er, dr = res_of(w, eo), res_of(w, do)
+  def walker_arg(fn, r):
+    out = []
+    for (n, c, nm) in fn.calls():
+      if endswith(nm, "convert_recursive_in_action"):
+        a = call_arg(c, 0, "converter")
+        out.append(r.norm(a, n.id) if a is not None else None)
+    return out
+  ok = walker_arg(eo, er) == ["objtypes.encode_object"] and \
+      walker_arg(do, dr) == [do.fi.params()[1]] and \
       text(do.node.args.defaults[0]) == "objtypes.decode_object"
   run.ob(R3, eo.qualname, "encode/decode share convert_recursive_in_action",
          "the same positions of an action are encoded on the way out and decoded on the way in",
          ok, fi=eo.fi)
   ar = w.fn("actions.action_from_repr")
-  ok = any(dotted(c.func) == "decode_objects" for c in calls_in(ar.node))
+  ok = any(endswith(ar.name(c), "decode_objects") for c in calls_in(ar.node))
   run.ob(R3, ar.qualname, "decode_objects(action_type(*doc_action[1:]))", "incoming actions are "
          "decoded", ok, fi=ar.fi)
   # every list of actions placed in a reply is mapped through get_action_repr
   for q, attrs in (("action_obj.ActionGroup.get_repr", ("calc", "stored", "undo")),
                    ("action_obj.ActionBundle.to_json_obj", ("stored", "calc", "undo"))):
     fn = w.fn(q)
+    r = res_of(w, fn)
     for a in attrs:
       ok = False
-      for n in ast.walk(fn.node):
-        if isinstance(n, ast.ListComp) and text(n.generators[0].iter) == "self." + a:
-          ok = any(endswith(dotted(c.func), "get_action_repr") for c in calls_in(n.elt))
+      for (it, tg, body, owner) in iterations(fn.node):
+        if r.norm(it) == "self." + a:
+          ok = ok or any(endswith(fn.name(c), "get_action_repr") and
+                         any(isinstance(x, ast.Name) and x.id in _names(tg) for x in c.args)
+                         for b in body for c in calls_in(b))
       run.ob(R3, q, "[... get_action_repr(a) ... for a in self.%s]" % a,
              "actions of the %s list are encoded before leaving the sandbox" % a, ok, fi=fn.fi)
-  mod = w.repo.module("main")
   for name in ("fetch_table", "fetch_meta_tables", "create_migrations"):
     q = "main.run." + name
     fn = w.fn(q)
-    rets = [n for n in ast.walk(fn.node) if isinstance(n, ast.Return)]
+    rets = res_of(w, fn).returns()
     ok = bool(rets) and all(any(endswith(dotted(c.func), "get_action_repr")
-                                for c in calls_in(r.value)) for r in rets)
+                                for c in calls_in(v)) for (n, v) in rets) and \
+        not res_of(w, fn).falls_off_end()
     run.ob(R3, q, "return ... actions.get_action_repr(...)", "table data returned to Node is "
            "encoded", ok, fi=fn.fi)
   fe = w.fn("main.run.get_formula_error")
-  rets = [n for n in ast.walk(fe.node) if isinstance(n, ast.Return)]
-  ok = bool(rets) and all(isinstance(r.value, ast.Call) and
-                          endswith(dotted(r.value.func), "encode_object") for r in rets)
+  rets = res_of(w, fe).returns()
+  ok = bool(rets) and all(isinstance(leaf, ast.Call) and
+                          endswith(dotted(leaf.func), "encode_object")
+                          for (n, v) in rets for (f, leaf) in Res.cases(v))
   run.ob(R3, fe.qualname, "return objtypes.encode_object(...)", "formula errors returned to Node "
          "are encoded", ok, fi=fe.fi)
 
